@@ -18,7 +18,10 @@
    case (8 x<blob> x<commitment> x<proof>)        kzg VerifyBlobProof: syntactic class
    case (9 x<blob>)                               kzg BlobToCommitment: syntactic class
    case (10 x<blob> x<z>)                         kzg ComputeProof: syntactic class
-        -> (k)  k = first failing syntactic check, 0 = none (see Crypto/KzgInput.v) *)
+        -> (k)  k = first failing syntactic check, 0 = none (see Crypto/KzgInput.v)
+   case (11 x<input>)                     bn256ScalarMul precompile, decoding decision only
+        -> (0) | (1 class)                (full-size scalars: result bytes are compared
+                                           between the backends only) *)
 From GV Require Import Lib.Sx Crypto.Blake2b Crypto.Bn254 Crypto.KzgInput.
 
 Definition err_code (e : dec_err) : Z :=
@@ -74,5 +77,10 @@ Definition C05_run (c : sx) : sx :=
   | SL [SI 10%Z; SB blob; SB z] =>
       SL [sn (if negb (N.eqb (blob_class blob_fe blob) 0) then blob_class blob_fe blob
               else if negb (fe_canonical z) then 2%N else 0%N)]
+  | SL [SI 11%Z; SB input] =>
+      match g1_decode (get_data input 0 64) with
+      | Ok _ => SL [SI 0%Z]
+      | Err e => SL [SI 1%Z; SI (err_code e)]
+      end
   | _ => SErr 0
   end.
